@@ -1142,7 +1142,8 @@ def _splat_literal_dicts(fn: ast.FunctionDef) -> int:
     for body in _bodies(fn):
         for pos, st in enumerate(list(body)):
             if not (isinstance(st, ast.Assign) and len(st.targets) == 1 and isinstance(st.targets[0], ast.Name) and isinstance(st.value, ast.Dict)
-                    and st.value.keys and all(isinstance(k, ast.Constant) and isinstance(k.value, str) and k.value.isidentifier() for k in st.value.keys)):
+                    and st.value.keys and all(k is None or (isinstance(k, ast.Constant) and isinstance(k.value, str) and k.value.isidentifier()) for k in st.value.keys)
+                    and all(k is not None or isinstance(v, ast.Name) for k, v in zip(st.value.keys, st.value.values))):
                 continue
             m = st.targets[0].id
             occ = [n for n in ast.walk(fn) if isinstance(n, ast.Name) and n.id == m]
@@ -1165,7 +1166,7 @@ def _splat_literal_dicts(fn: ast.FunctionDef) -> int:
                 continue
             for _, c, k in uses:
                 at = c.keywords.index(k)
-                c.keywords[at:at + 1] = [ast.keyword(arg=kk.value, value=_copy(v)) for kk, v in zip(st.value.keys, st.value.values)]
+                c.keywords[at:at + 1] = [ast.keyword(arg=(kk.value if kk is not None else None), value=_copy(v)) for kk, v in zip(st.value.keys, st.value.values)]
             body.remove(st)
             done += 1
     return done
